@@ -15,6 +15,13 @@ class TaggedScalar(er.CustomScalar):
     def coerce_output(self, v):
         v = super().coerce_output(v)
         return f"{self.tag}:{v}" if isinstance(v, str) else v
+    def coerce_input(self, v):
+        # variables of this type must be coerced by THIS schema name's implementation
+        v = super().coerce_input(v)
+        return f"{self.tag}<{v}" if isinstance(v, str) else v
+    def parse_literal(self, ast):
+        v = super().parse_literal(ast)
+        return f"{self.tag}<{v}" if isinstance(v, str) else v
 
 class MarkDirective:
     """stateful, bundle-specific directive instance (same class under every schema name)"""
